@@ -57,6 +57,7 @@ type Term struct {
 	name string // vars
 	ew   uint8  // effective width: bits above ew are known to be zero
 	tz   uint8  // bits below tz are known to be zero
+	pm   uint64 // possibly-set bits: every bit outside pm is known to be zero
 }
 
 type TermStore struct {
@@ -99,9 +100,120 @@ func (ts *TermStore) mk(op Op, w uint8, c uint64, args ...*Term) *Term {
 	copy(t.a[:], args)
 	t.ew = effWidth(t)
 	t.tz = lowZeros(t)
+	if w > 0 {
+		t.pm = possMask(t) & mask(w)
+		// the three analyses refine one another
+		if t.ew < 64 {
+			t.pm &= mask(t.ew)
+		}
+		t.pm &^= mask(t.tz)
+		if l := uint8(bits.Len64(t.pm)); l < t.ew {
+			t.ew = l
+		}
+		if t.pm == 0 {
+			t.tz = w
+		} else if z := uint8(bits.TrailingZeros64(t.pm)); z > t.tz {
+			t.tz = z
+		}
+	}
 	ts.next++
 	ts.tab[k] = t
 	return t
+}
+
+// possMask over-approximates the set of bits that can be 1 in t's value.
+func possMask(t *Term) uint64 {
+	m := mask(t.w)
+	below := func(x uint64) uint64 { // bits strictly below the lowest set bit of x
+		if x == 0 {
+			return m
+		}
+		return (x & -x) - 1
+	}
+	upto := func(x uint64) uint64 { return mask(uint8(bits.Len64(x))) } // all bits up to the highest set bit
+	switch t.op {
+	case OConst:
+		return t.c
+	case OZExt:
+		return t.a[0].pm
+	case OSExt:
+		a := t.a[0]
+		if a.pm>>(a.w-1)&1 == 1 {
+			return a.pm | (m &^ mask(a.w))
+		}
+		return a.pm
+	case OAnd:
+		return t.a[0].pm & t.a[1].pm
+	case OOr, OXor:
+		return t.a[0].pm | t.a[1].pm
+	case OAdd:
+		a, b := t.a[0].pm, t.a[1].pm
+		if a&b == 0 {
+			return a | b
+		}
+		l := bits.Len64(a|b) + 1
+		if l > 64 {
+			l = 64
+		}
+		return mask(uint8(l)) &^ below(a|b)
+	case OSub, ONeg:
+		u := t.a[0].pm
+		if t.op == OSub {
+			u |= t.a[1].pm
+		}
+		return m &^ below(u)
+	case OMul:
+		a, b := t.a[0].pm, t.a[1].pm
+		if a == 0 || b == 0 {
+			return 0
+		}
+		l := bits.Len64(a) + bits.Len64(b)
+		z := bits.TrailingZeros64(a) + bits.TrailingZeros64(b)
+		if l > 64 {
+			l = 64
+		}
+		if z > 64 {
+			z = 64
+		}
+		return mask(uint8(l)) &^ mask(uint8(z))
+	case OShl:
+		if t.a[1].isConst() {
+			if t.a[1].c >= 64 {
+				return 0
+			}
+			return t.a[0].pm << t.a[1].c
+		}
+		return m &^ below(t.a[0].pm)
+	case OLShr:
+		if t.a[1].isConst() {
+			if t.a[1].c >= 64 {
+				return 0
+			}
+			return t.a[0].pm >> t.a[1].c
+		}
+		return upto(t.a[0].pm)
+	case OAShr:
+		a := t.a[0]
+		if a.pm>>(a.w-1)&1 == 1 {
+			return m
+		}
+		return upto(a.pm)
+	case OExtract:
+		hi, lo := uint8(t.c>>8), uint8(t.c)
+		return (t.a[0].pm >> lo) & mask(hi-lo+1)
+	case OConcat:
+		return t.a[0].pm<<t.a[1].w | t.a[1].pm
+	case OIte:
+		return t.a[1].pm | t.a[2].pm
+	case OUDiv:
+		if t.a[1].isConst() && t.a[1].c != 0 {
+			return upto(t.a[0].pm)
+		}
+		return m // division by zero yields all ones
+	case OURem:
+		return upto(t.a[0].pm) // x % y <= x (and x when y == 0)
+	}
+	return m
 }
 
 // lowZeros returns a number of low bits known to be zero.
@@ -273,7 +385,7 @@ func (ts *TermStore) Bool(b bool) *Term {
 }
 
 func (ts *TermStore) Var(w uint8, name string) *Term {
-	t := &Term{op: OVar, w: w, c: uint64(len(ts.vars)), id: ts.next, name: name, ew: w}
+	t := &Term{op: OVar, w: w, c: uint64(len(ts.vars)), id: ts.next, name: name, ew: w, pm: mask(w)}
 	ts.next++
 	ts.vars = append(ts.vars, t)
 	return t
@@ -391,7 +503,7 @@ func (ts *TermStore) Bin(op Op, a, b *Term) *Term {
 	}
 	// additions of terms whose possibly-set bits do not overlap are ORs (pure wiring
 	// for the bit-blaster; typical of byte/varint assembly code)
-	if op == OAdd && !a.isConst() && !b.isConst() && (a.ew <= b.tz || b.ew <= a.tz) {
+	if op == OAdd && !a.isConst() && !b.isConst() && a.pm&b.pm == 0 {
 		return ts.Bin(OOr, a, b)
 	}
 	switch op {
@@ -410,11 +522,11 @@ func (ts *TermStore) Bin(op Op, a, b *Term) *Term {
 			return ts.Bin(OAdd, a.a[0], ts.Const(w, a.a[1].c+b.c))
 		}
 		// (x | c1) + c2 where x cannot overlap c1: x + (c1 + c2)
-		if b.isConst() && a.op == OOr && a.a[1].isConst() && a.a[0].ew <= a.a[1].tz {
+		if b.isConst() && a.op == OOr && a.a[1].isConst() && a.a[0].pm&a.a[1].c == 0 {
 			return ts.Bin(OAdd, a.a[0], ts.Const(w, a.a[1].c+b.c))
 		}
 		// x + c where x cannot overlap c: x | c
-		if b.isConst() && a.ew <= b.tz {
+		if b.isConst() && a.pm&b.c == 0 {
 			return ts.Bin(OOr, a, b)
 		}
 	case OSub:
@@ -454,8 +566,11 @@ func (ts *TermStore) Bin(op Op, a, b *Term) *Term {
 				return a
 			}
 			// all possibly-set bits of a are kept by the mask
-			if a.ew < 64 && (mask(a.ew)&^mask(a.tz))&^b.c == 0 {
+			if a.pm&^b.c == 0 {
 				return a
+			}
+			if a.pm&b.c == 0 {
+				return ts.Const(w, 0)
 			}
 			// (x & c1) & c2
 			if a.op == OAnd && a.a[1].isConst() {
